@@ -6,6 +6,7 @@ import (
 	"go/constant"
 	"go/token"
 	"go/types"
+	"path/filepath"
 	"sort"
 	"strings"
 
@@ -3431,7 +3432,7 @@ func E11ReturnedScratch(c *core.Ctx, r *core.Report, fileSuffix string) {
 
 // E11SVGSmooth: the smooth curve commands of ParseSVGPath follow the SVG rule for the implied control point.
 func E11SVGSmooth(c *core.Ctx, r *core.Report) {
-	r.Rule("E11.svg-smooth", "ParseSVGPath, cases S/s and T/t, evaluated symbolically for both letter cases and for a predecessor inside and outside the curve family (points as symbols, Add/Sub/Mul as terms, conditions on cmd and prevCmd decided): the first control point handed to CubeTo/QuadTo is the reflection 2·p0 − m of the remembered control point m when the previous command was C/c/S/s (resp. Q/q/T/t) and the current point p0 otherwise (SVG 1.1 §8.3.6–8.3.7), and after the case the remembered control point is the control point next to the end point of the curve just drawn")
+	r.Rule("E11.svg-smooth", "ParseSVGPath, cases S/s and T/t, evaluated abstractly for both letter cases and for each of the twenty command letters as predecessor (points as terms over Add/Sub/Mul, conditions and switches on cmd and prevCmd decided): the first control point handed to CubeTo/QuadTo is the reflection 2·p0 − m of the remembered control point m when the previous command was C/c/S/s (resp. Q/q/T/t) and the current point p0 otherwise (SVG 1.1 §8.3.6–8.3.7), and after the case the remembered control point is the control point next to the end point of the curve just drawn")
 	p := c.MustPkg("")
 	info := p.TypesInfo
 	fd := core.MustFuncDecl(p, "ParseSVGPath")
@@ -3443,16 +3444,19 @@ func E11SVGSmooth(c *core.Ctx, r *core.Report) {
 		if !ok || sw.Tag == nil {
 			return true
 		}
+		// the command switch is the one with the most letter cases (an inner `switch prevCmd` has a few)
+		found := map[string]*ast.CaseClause{}
 		for _, cs := range sw.Body.List {
 			cc := cs.(*ast.CaseClause)
 			for _, e := range cc.List {
 				if v, ok := core.ConstInt(info, e); ok && v < 128 {
-					clauses[string(rune(v))] = cc
-					if id, ok := core.Unparen(sw.Tag).(*ast.Ident); ok {
-						cmdObj = core.ObjOf(info, id)
-					}
+					found[string(rune(v))] = cc
 				}
 			}
+		}
+		if id, ok := core.Unparen(sw.Tag).(*ast.Ident); ok && len(found) > len(clauses) {
+			clauses = found
+			cmdObj = core.ObjOf(info, id)
 		}
 		return true
 	})
@@ -3464,6 +3468,20 @@ func E11SVGSmooth(c *core.Ctx, r *core.Report) {
 					if o := core.ObjOf(info, id); o != cmdObj {
 						if _, isConst := core.ConstInt(info, be.Y); isConst {
 							prevObj = o
+						}
+					}
+				}
+			}
+			// the switch form of the same test: `switch prevCmd { case 'C', 'c', … }`
+			if sw, ok := n.(*ast.SwitchStmt); ok && sw.Tag != nil {
+				if id, ok := core.Unparen(sw.Tag).(*ast.Ident); ok {
+					if o := core.ObjOf(info, id); o != nil && o != cmdObj {
+						for _, cs := range sw.Body.List {
+							for _, e := range cs.(*ast.CaseClause).List {
+								if _, isConst := core.ConstInt(info, e); isConst {
+									prevObj = o
+								}
+							}
 						}
 					}
 				}
@@ -3607,6 +3625,41 @@ func E11SVGSmooth(c *core.Ctx, r *core.Report) {
 				default:
 					out.bad = "condition `" + types.ExprString(x.Cond) + "` cannot be decided"
 				}
+			case *ast.SwitchStmt:
+				var actual byte
+				known := false
+				if id, ok := core.Unparen(x.Tag).(*ast.Ident); ok && x.Init == nil {
+					switch core.ObjOf(info, id) {
+					case cmdObj:
+						actual, known = cmd, true
+					case prevObj:
+						actual, known = prev, true
+					}
+				}
+				if !known {
+					out.bad = "switch `" + types.ExprString(x.Tag) + "` cannot be decided"
+					continue
+				}
+				var chosen, deflt *ast.CaseClause
+				for _, cs := range x.Body.List {
+					cl := cs.(*ast.CaseClause)
+					if cl.List == nil {
+						deflt = cl
+					}
+					for _, e := range cl.List {
+						if v, ok := core.ConstInt(info, e); ok && byte(v) == actual && chosen == nil {
+							chosen = cl
+						} else if !ok {
+							out.bad = "a case of `switch " + types.ExprString(x.Tag) + "` is not a constant"
+						}
+					}
+				}
+				if chosen == nil {
+					chosen = deflt
+				}
+				if chosen != nil {
+					run(chosen.Body, env, cmd, prev, out)
+				}
 			case *ast.ExprStmt:
 				call, ok := x.X.(*ast.CallExpr)
 				if !ok {
@@ -3650,11 +3703,8 @@ func E11SVGSmooth(c *core.Ctx, r *core.Report) {
 			if lower {
 				cmd |= 0x20
 			}
-			for _, inFamily := range []bool{true, false} {
-				prev := byte('L')
-				if inFamily {
-					prev = fam.family[0]
-				}
+			for _, prev := range []byte("MmZzLlHhVvCcSsQqTtAa") {
+				inFamily := strings.IndexByte(string(fam.family), prev) >= 0
 				n++
 				key := fmt.Sprintf("canvas.ParseSVGPath|'%c' after '%c'|implied control point", cmd, prev)
 				env := sym{}
@@ -3702,7 +3752,7 @@ func E11SVGSmooth(c *core.Ctx, r *core.Report) {
 		}
 	}
 	r.Count("E11.svg-smooth-cases", n)
-	r.Floor("E11.svg-smooth-cases", 8)
+	r.Floor("E11.svg-smooth-cases", 80)
 }
 
 // doubledBefore: in fd, before pos, there is `if len(…)%2 == 1 { arr = append(…, …...) }` assigning arr.
@@ -13176,4 +13226,292 @@ func E11CloseUsesOwnStart(c *core.Ctx, r *core.Report) {
 	}
 	r.Count("E11.close-uses-own-start", n)
 	r.Floor("E11.close-uses-own-start", 1)
+}
+
+// E11ZeroFactor: a factor that is still the zero value of its variable when it is used.
+func E11ZeroFactor(c *core.Ctx, r *core.Report) {
+	r.Rule("E11.zero-factor", "SVG importer (svg.go): a local declared `var x T` (zero value) whose field x.f is used as a factor or divisor (`… * float64(x.f)`) has, on at least one path from the declaration to that use, received a value (an assignment to x or x.f, its address taken, a closure or pointer-receiver method that can write it) — or the field is never assigned afterwards either. A factor that is zero on every path while the field is assigned further down means the two statements were exchanged: parseColor premultiplies the colour channels by col.A, which must have been parsed first, or every rgba() paint becomes black (forward may-write analysis over the statement structure; expected count zero, the mutant of the thorough tier is the positive example)")
+	p := c.MustPkg("")
+	info := p.TypesInfo
+	sites, funcs := 0, 0
+	for _, fd := range core.AllFuncDecls(p) {
+		if fd.Body == nil || filepath.Base(c.Fset.Position(fd.Pos()).Filename) != "svg.go" {
+			continue
+		}
+		funcs++
+		// tracked: locals declared without a value, of struct type
+		tracked := map[types.Object]bool{}
+		ast.Inspect(fd.Body, func(n ast.Node) bool {
+			ds, ok := n.(*ast.DeclStmt)
+			if !ok {
+				return true
+			}
+			gd, ok := ds.Decl.(*ast.GenDecl)
+			if !ok || gd.Tok != token.VAR {
+				return true
+			}
+			for _, sp := range gd.Specs {
+				vs := sp.(*ast.ValueSpec)
+				if len(vs.Values) != 0 {
+					continue
+				}
+				for _, nm := range vs.Names {
+					if o := info.Defs[nm]; o != nil {
+						if _, ok := o.Type().Underlying().(*types.Struct); ok {
+							tracked[o] = true
+						}
+					}
+				}
+			}
+			return true
+		})
+		if len(tracked) == 0 {
+			continue
+		}
+		rootField := func(e ast.Expr) (types.Object, string) {
+			// x.f (one level) → x, "f"; x → x, ""
+			switch v := core.Unparen(e).(type) {
+			case *ast.Ident:
+				if o := core.ObjOf(info, v); tracked[o] {
+					return o, ""
+				}
+			case *ast.SelectorExpr:
+				if id, ok := core.Unparen(v.X).(*ast.Ident); ok {
+					if o := core.ObjOf(info, id); tracked[o] {
+						return o, v.Sel.Name
+					}
+				}
+				if o, _ := rootFieldDeep(info, v.X, tracked); o != nil {
+					return o, "*"
+				}
+			case *ast.IndexExpr:
+				if o, _ := rootFieldDeep(info, v.X, tracked); o != nil {
+					return o, "*"
+				}
+			}
+			return nil, ""
+		}
+		// later writes per (var, field)
+		type wr struct {
+			o types.Object
+			f string
+		}
+		writesAt := map[wr][]token.Pos{}
+		ast.Inspect(fd.Body, func(n ast.Node) bool {
+			if as, ok := n.(*ast.AssignStmt); ok {
+				for _, l := range as.Lhs {
+					if o, f := rootField(l); o != nil {
+						writesAt[wr{o, f}] = append(writesAt[wr{o, f}], l.Pos())
+					}
+				}
+			}
+			return true
+		})
+		type S map[string]bool // "name" or "name.f" possibly written; nil = dead
+		key := func(o types.Object, f string) string {
+			if f == "" {
+				return o.Name()
+			}
+			return o.Name() + "." + f
+		}
+		touch := func(s S, k string) S {
+			if s[k] {
+				return s
+			}
+			out := S{k: true}
+			for x := range s {
+				out[x] = true
+			}
+			return out
+		}
+		var checkReads func(e ast.Expr, s S)
+		checkReads = func(e ast.Expr, s S) {
+			ast.Inspect(e, func(n ast.Node) bool {
+				if _, ok := n.(*ast.FuncLit); ok {
+					return false
+				}
+				be, ok := n.(*ast.BinaryExpr)
+				if !ok || (be.Op != token.MUL && be.Op != token.QUO) {
+					return true
+				}
+				for _, opnd := range []ast.Expr{be.X, be.Y} {
+					x := core.Unparen(opnd)
+					for {
+						call, ok := x.(*ast.CallExpr)
+						if !ok || len(call.Args) != 1 {
+							break
+						}
+						if tv, ok := info.Types[call.Fun]; !ok || !tv.IsType() {
+							break
+						}
+						x = core.Unparen(call.Args[0])
+					}
+					o, f := rootField(x)
+					if o == nil || f == "" || f == "*" {
+						continue
+					}
+					sites++
+					if s[key(o, "")] || s[key(o, f)] || s[key(o, "*")] {
+						continue
+					}
+					later := false
+					for _, w := range writesAt[wr{o, f}] {
+						if w > be.Pos() {
+							later = true
+						}
+					}
+					if later {
+						r.Fail("E11.zero-factor", fmt.Sprintf("canvas.%s|%s.%s used as a factor", core.FuncName(fd), o.Name(), f), c.Pos(be.Pos()), fmt.Sprintf("`%s`: on every path from `var %s` to this point %s.%s is still zero, and it is assigned only further down — the product is always zero", c.Src(be), o.Name(), o.Name(), f))
+					}
+				}
+				return true
+			})
+		}
+		effects := func(e ast.Expr, s S) S {
+			// address taken, closures, pointer-receiver methods: the variable may be written from here on
+			ast.Inspect(e, func(n ast.Node) bool {
+				switch v := n.(type) {
+				case *ast.FuncLit:
+					ast.Inspect(v.Body, func(m ast.Node) bool {
+						if id, ok := m.(*ast.Ident); ok && tracked[core.ObjOf(info, id)] {
+							s = touch(s, id.Name)
+						}
+						return true
+					})
+					return false
+				case *ast.UnaryExpr:
+					if v.Op == token.AND {
+						if o, _ := rootFieldDeep(info, v.X, tracked); o != nil {
+							s = touch(s, o.Name())
+						}
+					}
+				case *ast.CallExpr:
+					if se, ok := v.Fun.(*ast.SelectorExpr); ok {
+						if sel := info.Selections[se]; sel != nil && sel.Kind() == types.MethodVal {
+							if sig, ok := sel.Obj().Type().(*types.Signature); ok && sig.Recv() != nil {
+								if _, isPtr := sig.Recv().Type().(*types.Pointer); isPtr {
+									if o, _ := rootFieldDeep(info, se.X, tracked); o != nil {
+										s = touch(s, o.Name())
+									}
+								}
+							}
+						}
+					}
+				}
+				return true
+			})
+			return s
+		}
+		fl := &core.Flow[S]{
+			Join: func(a, b S) S {
+				out := S{}
+				for k := range a {
+					out[k] = true
+				}
+				for k := range b {
+					out[k] = true
+				}
+				return out
+			},
+			Equal: func(a, b S) bool {
+				if len(a) != len(b) || (a == nil) != (b == nil) {
+					return false
+				}
+				for k := range a {
+					if !b[k] {
+						return false
+					}
+				}
+				return true
+			},
+			Dead:   func() S { return nil },
+			IsDead: func(s S) bool { return s == nil },
+			Exit:   func(ast.Node, S) {},
+			Expr: func(e ast.Expr, s S) S {
+				checkReads(e, s)
+				return effects(e, s)
+			},
+			Stmt: func(st ast.Stmt, s S) (S, bool) {
+				switch x := st.(type) {
+				case *ast.DeclStmt:
+					// `var x T` starts x afresh
+					if gd, ok := x.Decl.(*ast.GenDecl); ok && gd.Tok == token.VAR {
+						out := S{}
+						for k := range s {
+							out[k] = true
+						}
+						for _, sp := range gd.Specs {
+							for _, nm := range sp.(*ast.ValueSpec).Names {
+								if tracked[info.Defs[nm]] {
+									for k := range out {
+										if k == nm.Name || strings.HasPrefix(k, nm.Name+".") {
+											delete(out, k)
+										}
+									}
+								}
+							}
+							for _, v := range sp.(*ast.ValueSpec).Values {
+								checkReads(v, out)
+								out = effects(v, out)
+							}
+						}
+						return out, true
+					}
+				case *ast.AssignStmt:
+					for _, rhs := range x.Rhs {
+						checkReads(rhs, s)
+						s = effects(rhs, s)
+					}
+					for _, l := range x.Lhs {
+						if o, f := rootField(l); o != nil {
+							s = touch(s, key(o, f))
+						} else {
+							checkReads(l, s)
+							s = effects(l, s)
+						}
+					}
+					return s, true
+				case *ast.IncDecStmt:
+					if o, f := rootField(x.X); o != nil {
+						return touch(s, key(o, f)), true
+					}
+				case *ast.RangeStmt:
+					for _, l := range []ast.Expr{x.Key, x.Value} {
+						if l != nil {
+							if o, f := rootField(l); o != nil {
+								s = touch(s, key(o, f))
+							}
+						}
+					}
+					return s, false
+				}
+				return s, false
+			},
+		}
+		fl.Run(fd.Body, S{})
+	}
+	r.Count("E11.zero-factor-functions", funcs)
+	r.Floor("E11.zero-factor-functions", 10)
+	r.OK("E11.zero-factor", "canvas.svg.go|factors of zero-declared locals", c.Pos(p.Syntax[0].Pos()), fmt.Sprintf("%d functions of svg.go, %d uses of a field of a zero-declared local as a factor examined", funcs, sites))
+}
+
+// rootFieldDeep: the tracked variable at the root of a selector/index chain.
+func rootFieldDeep(info *types.Info, e ast.Expr, tracked map[types.Object]bool) (types.Object, bool) {
+	for {
+		switch v := core.Unparen(e).(type) {
+		case *ast.Ident:
+			if o := core.ObjOf(info, v); tracked[o] {
+				return o, true
+			}
+			return nil, false
+		case *ast.SelectorExpr:
+			e = v.X
+		case *ast.IndexExpr:
+			e = v.X
+		case *ast.StarExpr:
+			e = v.X
+		default:
+			return nil, false
+		}
+	}
 }
